@@ -17,7 +17,7 @@ class H:
     def __init__(self, name, top, free, *, rigid=(), assume=(), bad=None, witness=None, K=16, mode="bmc",
                  domains=None, multiclock=False, meta=False, init_free=(), init_reset=(), inv=(), excuses=None,
                  extra=None, funcs=(), cfg=None, vcycles=30, show=(), bad_tick=None, timeout_s=900,
-                 vfilter=None, notes=(), expect_unreached=()):
+                 vfilter=None, notes=(), expect_unreached=(), zbad=None, zwitness=None):
         self.name = name
         self.top = top
         self.free = list(free)
@@ -43,6 +43,10 @@ class H:
         self.timeout_s = timeout_s
         self.vfilter = vfilter
         self.notes = list(notes)
+        # obligations given directly as z3 goals over the unrolling: name -> (goal_fn(U) -> z3 Bool [conjoined with the assumption prefix by the
+        # caller through U.pre], check_fn(rows, stim) -> violating frame or None on the REAL simulator trace)
+        self.zbad = dict(zbad or {})
+        self.zwitness = dict(zwitness or {})
 
 
 def _prefix_ok(U, assume, inv):
@@ -169,6 +173,44 @@ def run_harness(h, prop, tier, seed=1, replay_dir=None):
         if h.extra:
             base = base + list(h.extra(U))
 
+        U.pre = pre
+
+        def decide_z(kind, obname, fns):
+            t0 = time.time()
+            goal_fn, check_fn = fns
+            r, model = solve(list(base) + [goal_fn(U)], timeout_s=h.timeout_s, seed=seed)
+            rec = dict(ob=obname, kind=kind, solver=r, t_s=round(time.time() - t0, 2))
+            if r == "unknown":
+                rec["verdict"] = "unknown"
+                rec["reason"] = str(model)
+                return rec
+            if r == "unsat":
+                rec["verdict"] = "holds" if kind == "bad" else "unreached"
+                return rec
+            stim, sched, init_state, forces = _extract(U, h, tr, model)
+            rows = cosim.real_run(tr, stim, sched, init_state=init_state, forces=forces)
+            ok_upto = len(rows) - 1
+            for t in range(len(rows)):
+                if any(rows[t][a] != 1 for a in h.assume):
+                    ok_upto = t - 1
+                    break
+            frame = check_fn(rows, stim)
+            if frame is None or frame > ok_upto:
+                rec["verdict"] = "error"
+                rec["reason"] = "solver model does not replay on the real simulator"
+                return rec
+            rec["frame"] = frame
+            rec["verdict"] = "violated" if kind == "bad" else "reached"
+            if kind == "bad":
+                show = [s for s in (h.show or sorted(tr.free, key=lambda s: s.duid)[:8]) if s in tr.allsigs]
+                rec["trace"] = [{tr.names[s]: rows[t][s] for s in show} for t in range(max(0, frame - 11), frame + 1)]
+                if replay_dir:
+                    path = os.path.join(replay_dir, "%s__%s.json" % (h.name, obname))
+                    saved_bad = dict(h.bad)
+                    _dump_replay(path, h, tr, stim, sched, init_state, forces, obname, frame, rows)
+                    rec["replay"] = path
+            return rec
+
         def decide(kind, obname, sig, extra_assume=()):
             t0 = time.time()
             tickdom = h.bad_tick.get(obname)
@@ -234,6 +276,10 @@ def run_harness(h, prop, tier, seed=1, replay_dir=None):
             out["records"].append(rec)
         for obname, sig in h.witness.items():
             out["records"].append(decide("witness", obname, sig))
+        for obname, fns in h.zbad.items():
+            out["records"].append(decide_z("bad", obname, fns))
+        for obname, fns in h.zwitness.items():
+            out["records"].append(decide_z("witness", obname, fns))
     except Unsupported as e:
         out["error"] = "Unsupported: %s" % e
     except Exception as e:
